@@ -541,7 +541,7 @@ def gen_program(rng, case, focus=None, allow_infeasible=True):
                             M.bucket('C08/dilute/trace_concentration')
                         st = {'op': 'dilute', 'dst': t, 'solute': solute, 'solvent': solv,
                               'conc': f'{c0 * rng.uniform(0.3, 0.9):.6g} {num}/{den}',
-                              'new_name': rng.choice([None, None, f'renamed{created}']) if case.get('prop') == 'C08' else None}
+                              'new_name': rng.choice([None, None, f'renamed{created}'])}
         elif kind in ('solution', 'solution_c'):
             created += 1
             solute = rng.choice([s for s in subs if not s.is_liquid()] or subs)
@@ -877,6 +877,7 @@ def run_recipe_case(rng, case, idx, focus=None):
     r = None
     handles = {}
     placeholders = {}
+    recipe_before = None
     with M.active(case):
         try:
             if forgot and eager_exc is None:
@@ -893,11 +894,16 @@ def run_recipe_case(rng, case, idx, focus=None):
                 r, handles = to_recipe(prog['decls'], prog['steps'], hostile=hostile, subs=prog['subs'])
             placeholders = {nme: F.fingerprint(o) for nme, o in handles.items()}
             pre_bake = {nme: F.fingerprint(o) for nme, o in handles.items()}
+            with M.oracle():
+                recipe_before = recipe_state(r)
             res = r.bake()
         except (MonitorBug, InjectedFault):
             raise
         except Exception as e:   # noqa
             bake_exc = e
+        # ---------------- a bake that raised part-way: the recipe is as it was, and baking it again is refused again
+        if bake_exc is not None and recipe_before is not None:
+            rebake_after_refusal(r, recipe_before, bake_exc, pdesc)
     M.count('C08.programs')
     kinds = sorted({s['op'] for s in rs})
     for kd in kinds:
@@ -958,15 +964,62 @@ def run_recipe_case(rng, case, idx, focus=None):
                                   {'k': k, 'name': nme, 'diff': d, 'program': pdesc})
                         break
     with M.active(case):
-        renamed = any(s_.get('new_name') for s_ in rs)
-        if not renamed:
-            check_c09(prog, pdesc, rs, r, res, ledger, case, handles)
-            check_c15(prog, pdesc, rs, r, res, ledger, case, handles)
-            check_c17_trash(prog, pdesc, rs, r, res, ledger, case, handles)
+        # (programs in which a dilute step gives its container a new name included: the tracking queries are asked about the
+        # object that was declared)
+        if any(s_.get('new_name') for s_ in rs):
+            M.bucket('C15/program_with_renaming_dilute')
+        check_c09(prog, pdesc, rs, r, res, ledger, case, handles)
+        check_c15(prog, pdesc, rs, r, res, ledger, case, handles)
+        check_c17_trash(prog, pdesc, rs, r, res, ledger, case, handles)
         check_c19_steps(prog, pdesc, rs, r, res, ledger, objects, case)
 
 
 # --------------------------------------------------------------------------------------------------
+
+def recipe_state(r):
+    """What a recipe lets its user see before bake: its declared objects (by name, with their contents), whether it is locked,
+    its stages, and what each step refers to (the kind of object and the wells a slice addresses)."""
+    def ref_(x):
+        if x is None:
+            return None
+        if hasattr(x, 'plate'):
+            try:
+                return ('slice', x.plate.name, tuple(w_.name for w_ in x.get().flatten()) if hasattr(x.get(), 'flatten') else (x.get().name,))
+            except Exception as e_:   # noqa
+                return ('slice', x.plate.name, repr(e_)[:60])
+        return (type(x).__name__, x.name)
+    steps = []
+    for st_ in r.steps:
+        steps.append((st_.operator, tuple(ref_(x) for x in st_.frm), tuple(ref_(x) for x in st_.to), len(st_.trash)))
+    return {'results': {nme: F.fingerprint(o) for nme, o in r.results.items()}, 'locked': r.locked,
+            'stages': {k: (v.start, v.stop) for k, v in r.stages.items()}, 'open': r.current_stage, 'steps': steps}
+
+
+def rebake_after_refusal(r, before, bake_exc, pdesc):
+    """First bake raised.  (1) nothing the recipe shows has changed, (2) a second bake raises again - the steps are the same
+    and so is what they are applied to - instead of returning some result of steps applied twice, or of slice steps carried
+    out on whole plates."""
+    M.count('C08.rebake_after_refused_step')
+    M.bucket('C08/rebake_after_refused_step')
+    with M.oracle():
+        after = recipe_state(r)
+    if after != before:
+        what = sorted(k for k in before if before[k] != after.get(k))
+        names = sorted(nme for nme in before['results'] if before['results'][nme] != after['results'].get(nme)) if 'results' in what else []
+        M.violate(['C04', 'C08', 'C16'], 'BAKE', 'C04:refused_bake_changed_the_recipe:' + '+'.join(what),
+                  {'changed': what, 'objects': names[:6], 'first_bake': repr(bake_exc)[:200], 'program': pdesc})
+    try:
+        res2 = r.bake()
+    except (MonitorBug, InjectedFault):
+        raise
+    except Exception as e2:   # noqa
+        if isinstance(e2, ValueError) != isinstance(bake_exc, ValueError) and type(e2) is not type(bake_exc):
+            M.violate(['C08', 'C16'], 'BAKE', f'C08:second_bake_refused_differently:{type(bake_exc).__name__}->{type(e2).__name__}',
+                      {'first_bake': repr(bake_exc)[:200], 'second_bake': repr(e2)[:200], 'program': pdesc})
+        return
+    M.violate(['C08', 'C03', 'C16', 'C04', 'C07', 'C01', 'C02'], 'BAKE', 'C08:second_bake_after_refused_bake_returned_a_result',
+              {'first_bake': repr(bake_exc)[:200], 'second_bake_returned': sorted(res2), 'program': pdesc})
+
 
 def check_c08(prog, pdesc, rs, eager_states, eager_exc, res, bake_exc, handles, placeholders, case):
     pp = PP()
